@@ -224,7 +224,7 @@ class Ctx:
         if not os.path.exists(gosum) or os.path.getmtime(gosum) < os.path.getmtime(os.path.join(REPO, "go.sum")):
             shutil.copy(os.path.join(REPO, "go.sum"), gosum)
         t = time.time()
-        for attempt in range(3):
+        for attempt in range(5):
             try:
                 p = subprocess.run(cmd, cwd=HARNESS, env=e, stdout=subprocess.PIPE, stderr=subprocess.STDOUT,
                                    timeout=timeout + 120, text=True, errors="replace")
